@@ -277,10 +277,7 @@ func ParseOne(s []byte) (m BMsg, n int, err error) {
 		}
 		c.end("ReadyForQuery")
 	case 'T':
-		k := int(int16(c.u16()))
-		if k < 0 {
-			c.fail("RowDescription negative count")
-		}
+		k := int(c.u16()) // unsigned, as libpq and pgproto3 read it
 		for i := 0; i < k && c.err == nil; i++ {
 			var d ColDesc
 			d.Name = c.str()
@@ -297,10 +294,7 @@ func ParseOne(s []byte) (m BMsg, n int, err error) {
 		}
 		c.end("RowDescription")
 	case 'D':
-		k := int(int16(c.u16()))
-		if k < 0 {
-			c.fail("DataRow negative count")
-		}
+		k := int(c.u16())
 		for i := 0; i < k && c.err == nil; i++ {
 			fl := int32(c.u32())
 			if fl == -1 {
@@ -373,10 +367,7 @@ func ParseOne(s []byte) (m BMsg, n int, err error) {
 		if c.err == nil && m.CopyFmt > 1 {
 			c.fail(fmt.Sprintf("Copy response format %d", m.CopyFmt))
 		}
-		k := int(int16(c.u16()))
-		if k < 0 {
-			c.fail("Copy response negative count")
-		}
+		k := int(c.u16())
 		for i := 0; i < k && c.err == nil; i++ {
 			f := int16(c.u16())
 			if c.err == nil && f != 0 && f != 1 {
